@@ -230,6 +230,9 @@ DOC = {
     "bools": ["true", "TRUE", "False", True, False],
     "one": "single",
     "objs": [{"n": "x1"}, {"m": 2}, {"n": "x3"}],
+    "objs_first_missing": [{"m": 1}, {"n": "y2"}, {"n": "Y3"}],
+    "objs_last_missing": [{"n": "z1"}, {"n": "7"}, {"m": 3}],
+    "objs_all_missing": [{"m": 1}, {"m": 2}],
     "empty": [],
     "json1": '{"a": [1, "2", null, true, 1.5], "b": {"c": "d"}}',
     "json2": "[1, 2, 3]",
@@ -247,6 +250,9 @@ QUERIES = [
     ("floatstrs[*]", DOC["floatstrs"]), ("bools[*]", DOC["bools"]), ("one", ["single"]), ("objs[*].n", ["x1", UNRES, "x3"]),
     ("strs[ this == 'nothing-matches' ]", []), ("json1", [DOC["json1"]]), ("json2", [DOC["json2"]]), ("json3", [DOC["json3"]]), ("arn", [DOC["arn"]]),
     ("enc[*]", DOC["enc"]), ("digits[*]", DOC["digits"]), ("chars[*]", DOC["chars"]), ("zz_missing", [UNRES]), ("ascii", [DOC["ascii"]]),
+    # where the unresolved member stands in the result list must not matter
+    ("objs_first_missing[*].n", [UNRES, "y2", "Y3"]), ("objs_last_missing[*].n", ["z1", "7", UNRES]), ("objs_all_missing[*].n", [UNRES, UNRES]),
+    ("objs_first_missing.*.n", [UNRES, "y2", "Y3"]),
 ]
 UNARY_FNS = ["count", "to_upper", "to_lower", "url_decode", "parse_int", "parse_float", "parse_boolean", "parse_string", "parse_char", "json_parse"]
 OFFSETS = [0, 1, 2, 3, 4, 5, 6, -1, 65535, 65536, 65537, 65538, 131072]
